@@ -18,7 +18,7 @@ table = "### 10.8 Seeded changes (from `seeded/*/meta.json`; regenerate with `ha
 p = "/verif/DESIGN.md"
 s = open(p).read()
 if "### 10.8 Seeded changes" in s:
-    s = re.sub(r"(?s)### 10\.8 Seeded changes.*?(?=---------------------------------------------------------------------------------------------------\n\n## Appendix A)", table, s)
+    s = re.sub(r"(?s)### 10\.8 Seeded changes.*?(?=### 10\.9 |---------------------------------------------------------------------------------------------------\n\n## Appendix A)", lambda m: table, s)
 else:
     s = s.replace("---------------------------------------------------------------------------------------------------\n\n## Appendix A", table + "---------------------------------------------------------------------------------------------------\n\n## Appendix A")
 open(p, "w").write(s)
